@@ -3,6 +3,8 @@
 # check of its property, reverts, and records whether the check reported a violation.
 # usage: selftest.sh [seed ids...]   (default: all)   -> writes /verif/seeded/RESULTS.tsv
 cd /verif
+# runs on deliberately broken trees must not overwrite /verif/evidence (which describes the tree as it is)
+export VERIF_EVIDENCE_DIR=$(mktemp -d); trap 'rm -rf "$VERIF_EVIDENCE_DIR"' EXIT
 ids="$@"; [ -z "$ids" ] && ids=$(ls seeded | grep -E '^C[0-9]+-m[0-9]+$')
 out=/verif/seeded/RESULTS.tsv; tmp=$(mktemp)
 for id in $ids; do
